@@ -183,6 +183,7 @@ fn check_parent(run: &Run, pnode: &Node, cfg: &AlphaCfg, max_batch: usize) {
         .collect();
     tasks.extend(strong);
     let invalid: Vec<Transaction> = all_txs.iter().filter(|x| !x.2).map(|x| x.1.clone()).take(4).collect();
+    let valid_others: Vec<Transaction> = all_txs.iter().filter(|x| x.2 && x.1.kind != melstructs::TxKind::Faucet).map(|x| x.1.clone()).take(3).collect();
     tasks.par_iter().for_each(|(label, batch, act)| {
         {
             // a proposer whose mempool also held transactions that turned out invalid (and duplicates): the failed attempts leave
@@ -197,6 +198,12 @@ fn check_parent(run: &Run, pnode: &Node, cfg: &AlphaCfg, max_batch: usize) {
                         u.apply_tx(t).ok()?;
                         let _ = u.apply_tx(t);
                         let _ = u.apply_tx_batch(&[t.clone(), t.clone()]);
+                        // a batch whose *last* member fails late (a faucet already in the block): its earlier members must not stay behind
+                        if t.kind == melstructs::TxKind::Faucet {
+                            for v in valid_others.iter().filter(|v| !batch.iter().any(|b| b.hash_nosigs() == v.hash_nosigs() || b.inputs.iter().any(|i| v.inputs.contains(i)))) {
+                                let _ = u.apply_tx_batch(&[v.clone(), t.clone()]);
+                            }
+                        }
                     }
                     Some(u.seal(*act))
                 });
